@@ -873,3 +873,81 @@ Proof.
           - constructor; auto. rewrite nkey_set_mark, Ck. auto.
           - constructor; auto. apply hord_set_mark; auto. }
 Qed.
+
+Lemma node_ok : forall t, hord t -> Forall hx (ents t) -> node_spec t.
+Proof.
+  induction t as [i k m d ks IH] using hnode_ind'. intros Hh Hx.
+  destruct (hord_inv _ Hh) as [Hk Hhk]. simpl in Hk, Hhk.
+  assert (Hxk : Forall hx (entsl ks)) by (simpl in Hx; inversion Hx; auto).
+  pose proof (kids_ok (HNode i k m d ks) ks IH Hk Hhk Hxk) as K.
+  unfold node_spec. rewrite cut_node_eq. unfold kids_spec in K.
+  destruct (cut_kids (HNode i k m d ks) ks) as [|ks' cu|ks' cu].
+  - exact K.
+  - destruct K as [A [B C]]. split; [|split; [constructor; auto|reflexivity]].
+    eapply cut_post_frame; [apply A| | |].
+    + simpl. change (flat_map ents ks) with (entsl ks). perm.
+    + simpl. change (flat_map ents ks') with (entsl ks'). perm.
+    + intros e [<-|[]]. right. left. reflexivity.
+  - destruct K as [A [B C]]. split; [|split; [constructor; auto|reflexivity]].
+    eapply cut_post_frame; [apply A| | |].
+    + simpl. change (flat_map ents ks) with (entsl ks). perm.
+    + simpl. change (flat_map ents ks') with (entsl ks'). perm.
+    + intros e [<-|[]]. right. left. reflexivity.
+Qed.
+
+Definition roots_post (rs rs' cu : list hnode) : Prop :=
+  exists kx dx E,
+    Permutation (entsl rs) ((kx, x, dx) :: E) /\
+    Permutation (entsl rs' ++ entsl cu) ((k', x, d') :: E) /\
+    Forall hord rs' /\ Forall hord cu /\ map nid rs' = map nid rs /\
+    ((exists x', In x' (rs' ++ cu) /\ nent x' = (k', x, d')) \/ (exists e, In e E /\ nlt e = false)).
+
+Lemma cut_post_roots casc r r' cu rest :
+  cut_post casc (ents r) (ents r') cu [] -> hord r' -> nent r' = nent r -> Forall hord rest ->
+  roots_post (r :: rest) (r' :: rest) cu.
+Proof.
+  intros [kx [dx [E [P1 [P2 [Hh D]]]]]] Hr' Hn Hrest. inversion Hn as [[Hk Hi Hd]].
+  exists kx, dx, (E ++ entsl rest). split; [ex; rewrite P1; reflexivity|]. split.
+  - ex. transitivity ((ents r' ++ entsl cu) ++ entsl rest); [perm|rewrite P2; reflexivity].
+  - split; [constructor; auto|]. split; auto. split; [simpl; congruence|].
+    destruct D as [[_ [_ [e [He Hne]]]]|[x' [rest' [-> Hx']]]].
+    + right. exists e. split; auto. apply in_or_app. auto.
+    + left. exists x'. split; auto. apply in_or_app. right. left. reflexivity.
+Qed.
+
+Lemma cut_roots_ok : forall rs, Forall hord rs -> Forall hx (entsl rs) ->
+  Exists (fun e => eid e = x) (entsl rs) ->
+  exists rs' cu, cut_roots lt x upd rs = Some (rs', cu) /\ roots_post rs rs' cu.
+Proof.
+  induction rs as [|r rest IH]; intros Hh Hx Hex; [inversion Hex|].
+  inversion Hh as [|? ? Hhr Hhrest]; subst. rewrite entsl_cons in Hx, Hex.
+  apply Forall_app in Hx. destruct Hx as [Hxr Hxrest]. cbn [cut_roots].
+  destruct (Z.eqb (nid r) x) eqn:Er.
+  - apply Z.eqb_eq in Er. exists (upd r :: rest), []. split; auto.
+    assert (Hxn : hx (nent r)) by (rewrite ents_unfold in Hxr; inversion Hxr; auto).
+    exists (nkey r), (ndel r), (entsl (nkids r) ++ entsl rest).
+    split; [ex; rewrite (ents_unfold r); unfold nent; rewrite Er; reflexivity|].
+    split; [ex; rewrite ents_upd, Er; simpl; perm|].
+    split; [constructor; auto; apply hord_upd; auto|]. split; [constructor|].
+    split; [destruct r; reflexivity|].
+    left. exists (upd r). split; [left; reflexivity|]. destruct r; simpl in *. rewrite Er. reflexivity.
+  - pose proof (node_ok r Hhr Hxr) as N. unfold node_spec in N.
+    destruct (cut_node lt x upd r) as [|r' cu|r' cu].
+    + assert (Hnr : Forall (fun e => eid e <> x) (ents r)).
+      { rewrite ents_unfold. constructor; auto. apply Z.eqb_neq in Er. exact Er. }
+      apply Exists_app in Hex. destruct Hex as [Hex|Hex].
+      { exfalso. apply Exists_exists in Hex. destruct Hex as [e [He1 He2]].
+        rewrite Forall_forall in Hnr. apply (Hnr e He1 He2). }
+      destruct (IH Hhrest Hxrest Hex) as [rest' [cu [Hc [kx [dx [E [P1 [P2 [A [B [C D]]]]]]]]]]].
+      rewrite Hc. exists (r :: rest'), cu. split; auto.
+      exists kx, dx, (ents r ++ E). split; [ex; rewrite P1; perm|]. split.
+      { ex. transitivity (ents r ++ (entsl rest' ++ entsl cu)); [perm|rewrite P2; perm]. }
+      split; [constructor; auto|]. split; auto. split; [simpl; congruence|].
+      destruct D as [[x' [Hin Hx']]|[e [He Hn]]].
+      * left. exists x'. split; auto. right. auto.
+      * right. exists e. split; auto. apply in_or_app. auto.
+    + destruct N as [A [B C]]. exists (r' :: rest), cu. split; auto. eapply cut_post_roots; eauto.
+    + destruct N as [A [B C]]. exists (r' :: rest), cu. split; auto. eapply cut_post_roots; eauto.
+Qed.
+
+End CutProofs.
